@@ -131,6 +131,9 @@ type step struct {
 	Exp     *exp     `json:"exp"`
 }
 
+// VERIF_SLOWSYNC=<duration>: a sync round that is pending when NewTerm arrives stalls this long
+var slowSync = func() time.Duration { d, _ := time.ParseDuration(os.Getenv("VERIF_SLOWSYNC")); return d }()
+
 type histEv struct {
 	Ev    string `json:"ev"`
 	Op    int    `json:"op"`
@@ -382,7 +385,8 @@ func (r *runner) exec(st *step) error {
 		go func() { h, err := s.NewTerm(st.N, st.T-1); ch <- ntRes{h, err} }()
 		var h *proto.EntryId
 		var err error
-		deadline := time.Now().Add(r.timeout + 5*time.Second)
+		deadline := time.Now().Add(r.timeout + 5*time.Second + slowSync)
+		stalled := false
 	wait:
 		for {
 			select {
@@ -391,6 +395,12 @@ func (r *runner) exec(st *step) error {
 				break wait
 			case <-time.After(2 * time.Millisecond):
 				if s.IsParked("sync", st.N, st.N) {
+					if slowSync > 0 && !stalled {
+						// a slow disk: the pending sync round takes this long (VERIF_SLOWSYNC); the handler
+						// has to wait for it - its answer must still be the end of the log
+						stalled = true
+						time.Sleep(slowSync)
+					}
 					_ = s.Release("sync", st.N, st.N, time.Millisecond)
 				}
 				if time.Now().After(deadline) {
